@@ -424,8 +424,11 @@ func NewStream(r *Rng, l *LUT) *Stream {
 func (s *Stream) Next() (start, rtt, inflight int64, drop bool) {
 	r := s.r
 	if s.phaseLen <= 0 {
-		s.phase = []int{0, 0, 1, 2, 3, 4, 4, 5}[r.Intn(8)]
+		s.phase = []int{0, 0, 1, 2, 3, 4, 4, 5, 6}[r.Intn(9)]
 		s.phaseLen = 3 + r.Intn(40)
+		if s.phase == 6 {
+			s.phaseLen = 60 + r.Intn(400) // long healthy climb towards the ceiling
+		}
 		if r.Bool(15) {
 			s.base = r.Pick(150_000, 400_000, 1_000_000, 3_000_000, 30_000_000)
 		}
@@ -453,6 +456,12 @@ func (s *Stream) Next() (start, rtt, inflight int64, drop bool) {
 		if r.Bool(30) {
 			rtt = r.Pick(0, 1, s.base/2)
 		}
+	case 6:
+		nl := s.l.NoLoad()
+		if nl <= 0 {
+			nl = s.base
+		}
+		rtt, inflight = nl, ei+r.Range(0, 2)
 	case 4:
 		// boundary hunting: in-flight around est/2, est; RTT around the baseline and around Vegas' queue thresholds
 		inflight = r.Pick(ei/2-1, ei/2, ei/2+1, (ei+1)/2, ei-1, ei, ei+1)
@@ -488,7 +497,7 @@ func (s *Stream) Next() (start, rtt, inflight int64, drop bool) {
 	if rtt < 0 {
 		rtt = 0
 	}
-	if s.phase != 5 && r.Intn(100) < s.EdgePct {
+	if s.phase != 5 && s.phase != 6 && r.Intn(100) < s.EdgePct {
 		rtt = r.Pick(0, 1, 1<<62)
 	}
 	s.l.Now += r.Range(1, 50_000_000)
